@@ -280,7 +280,11 @@ def gen_case(rng, spawner='POPEN'):
 #
 class ExecSim(object):
 
-    WATCHDOG = 20.0
+    WATCHDOG = 120.0     # hard wall-clock limit: firing is inconclusive, never
+                         # a verdict.  "Left behind" is decided by idleness:
+                         # no process of the history alive, nothing queued and
+                         # no transport event for IDLE_POLLS x 50 ms
+    IDLE_POLLS = 100
 
     def __init__(self, workdir, case):
 
@@ -492,7 +496,7 @@ class ExecSim(object):
                 idle, last_seq = 0, seq
             else:
                 idle += 1
-                if idle >= 60:
+                if idle >= self.IDLE_POLLS:
                     self.notes.append('idle-exit')
                     break
             _real_sleep(0.05)
